@@ -191,6 +191,32 @@ def worker(chk, wi, nw):
                         out = finish(v, xml_mut, (b['path'], b['kind'], text_mut, fault, info, ov), fault, b['kind'])
                         if out:
                             return out
+            # semantic faults of a declaring block that cannot be mistaken for another valid declaration: the size of an array declared by a
+            # literal size becomes a non-constant / a clock / an ill-typed expression (two variables are declared in front for that purpose)
+            if b['kind'] == 'declaration':
+                sizes = [k for k in range(1, n - 1) if toks[k][0] == 'int' and toks[k - 1][1] == '[' and toks[k + 1][1] == ']' and k >= 2 and toks[k - 2][0] == 'id']
+                for k in sizes[:3]:
+                    for fault, repl in (('array-size-not-constant', '(%s + zqsz)'), ('array-size-a-clock', 'zqck'), ('array-size-ill-typed', '(%s + true[0])')):
+                        a_, b_ = toks[k][2], toks[k][3]
+                        lead = 'int zqsz; clock zqck;\n'
+                        text_mut = lead + text[:a_] + (repl % toks[k][1] if '%s' in repl else repl) + text[b_:]
+                        ov = dict(noisy)
+                        ov[b['path']] = text_mut
+                        xml_mut = doc.serialize(ov)
+                        r = run_one(xml_mut)
+                        if r is None:
+                            stats.extra['crashes_seen_(C01)'] += 1
+                            continue
+                        if r.get('exc') or not r['errors']:
+                            stats.extra['mutation_was_not_a_fault'] += 1
+                            continue
+                        stats.case('%s|%s|%d|%s|%d' % (base, b['path'], k, fault, seed), nontrivial=True, classes=['block:' + b['kind'], 'fault:' + fault, 'noise:' + flags[b['path']]],
+                                   sample={'block': b['path'], 'kind': b['kind'], 'fault': fault, 'text': text_mut[:200], 'errors': [(d['msg'], d['path'], d['line'], d['col']) for d in r['errors']][:3]})
+                        v = eval_case(xml_mut, b['path'], b['kind'], text_mut, fault, {}, r, ov)
+                        if v:
+                            out = finish(v, xml_mut, (b['path'], b['kind'], text_mut, fault, {}, ov), fault, b['kind'])
+                            if out:
+                                return out
         return None
 
     def eval_diag_only(xml_text, r, texts):
